@@ -62,6 +62,25 @@ Proof.
     cbn in E. rewrite str_eqb_refl in E. discriminate.
 Qed.
 
+(** The same for any predicate that holds of parents only. *)
+Lemma update_first_some_gen : forall (p : tree -> bool) f l l',
+  (forall t, p t = true -> exists r g ch, t = Parent r g ch) ->
+  update_first p f l = Some l' ->
+  exists l1 r g ch l2, l = l1 ++ Parent r g ch :: l2 /\ l' = l1 ++ f (Parent r g ch) :: l2 /\ p (Parent r g ch) = true
+                       /\ (forall t, In t l1 -> p t = false).
+Proof.
+  intros p f l. induction l as [|x tl IH]; intros l' Hp H; cbn in H; [discriminate|].
+  destruct (p x) eqn:E.
+  - inversion H; subst. destruct (Hp x E) as [r [g [ch Hx]]]. subst x.
+    exists [], r, g, ch, tl. repeat split; [exact E|intros t []].
+  - destruct (update_first p f tl) as [tl'|] eqn:E2; [|discriminate]. inversion H; subst.
+    destruct (IH tl' Hp eq_refl) as [l1 [r [g [ch [l2 [H1 [H2 [H3 H4]]]]]]]]. subst.
+    exists (x :: l1), r, g, ch, l2. repeat split; [exact H3|]. intros t [Ht|Ht]; [subst; exact E|apply H4; exact Ht].
+Qed.
+
+Lemma is_parent_named_raw_parent : forall m t, is_parent_named_raw m t = true -> exists r g ch, t = Parent r g ch.
+Proof. intros m [r g ch|e a] H; [exists r, g, ch; reflexivity|discriminate]. Qed.
+
 (** ** Every inserted entry is one new leaf under its path; nothing else changes *)
 Lemma raw_leaves_app : forall l1 l2, raw_leaves (l1 ++ l2) = raw_leaves l1 ++ raw_leaves l2.
 Proof. intros. unfold raw_leaves. apply flat_map_app. Qed.
@@ -131,7 +150,8 @@ Lemma raw_leaves_insert_group : forall g l, raw_leaves (insert_group l g) = raw_
 Proof.
   intros g l. unfold insert_group. apply raw_leaves_descend. intro l0.
   destruct (update_first _ _ l0) as [l'|] eqn:E; cbn [or_same]; [|reflexivity].
-  eapply raw_leaves_update_first_same; [|exact E]. intros g0 ch. reflexivity.
+  apply update_first_some_gen in E; [|apply is_parent_named_raw_parent].
+  destruct E as [l1 [r [g0 [ch [l2 [H1 [H2 _]]]]]]]. subst. rewrite !raw_leaves_app. reflexivity.
 Qed.
 
 Lemma raw_leaves_fold_groups : forall groups l, raw_leaves (fold_left insert_group groups l) = raw_leaves l.
@@ -247,10 +267,13 @@ Qed.
 Lemma trie_insert_group : forall g l, trie_forest l -> trie_forest (insert_group l g).
 Proof.
   intros g l H. unfold insert_group. apply trie_descend; [|exact H].
-  intros l0 H0. destruct (update_first _ _ l0) as [l'|] eqn:E; cbn [or_same]; [|exact H0].
-  eapply trie_update_first; [| |exact E|exact H0].
-  - intros g0 ch. reflexivity.
-  - intros g0 ch Hp. inversion Hp; subst. cbn [set_group]. apply trie_parent; assumption.
+  intros l0 [Hnd Hall]. destruct (update_first _ _ l0) as [l'|] eqn:E; cbn [or_same]; [|split; assumption].
+  apply update_first_some_gen in E; [|apply is_parent_named_raw_parent].
+  destruct E as [l1 [r [g0 [ch [l2 [H1 [H2 _]]]]]]]. subst. split.
+  - rewrite parent_names_app in *. exact Hnd.
+  - apply Forall_app in Hall. destruct Hall as [Ha Hb]. inversion Hb as [|? ? Hp Hc]; subst.
+    apply Forall_app. split; [exact Ha|]. constructor; [|exact Hc].
+    inversion Hp; subst. cbn [set_group]. apply trie_parent; assumption.
 Qed.
 
 Lemma modules_merged : forall benches groups, trie_forest (build_tree benches groups).
